@@ -208,6 +208,8 @@ def runSection (r : Report) (s : Section) : Report := Id.run do
   let mut sp : Spec.Api := Spec.Api.init interval
   let mut aux : Aux := {}
   let mut r := r.addCover (if wb then "mode-wb" else "mode-api-" ++ kvStr s.cfg "tk" "sync")
+  if kvNat s.cfg "long" 0 = 1 then r := r.addCover "long-run-section"
+  let mut maxLive := 0
   for l in s.lines do
     match parseCall l.op with
     | none => r := r.mismatch s.idx l.idx "bad-op" (joinSp l.op)
@@ -234,6 +236,9 @@ def runSection (r : Report) (s : Section) : Report := Id.run do
         if sm ≠ impl then r := r.violation s.idx l.idx s!"spec=[{sm}] impl=[{impl}] op=[{joinSp l.op}]"
         a := a'
         sp := sp'
+        if a.inner.entries.length > maxLive then maxLive := a.inner.entries.length
+  if maxLive ≥ 1000 then r := r.addCover "live-timers-1000+"
+  if maxLive ≥ 10 then r := r.addCover "live-timers-10+"
   return r
 
 def driver (secs : List Section) : Report := secs.foldl runSection {}
